@@ -28,7 +28,8 @@ import (
 //	C18.sh <signals> <outcomes>
 //	    signals: comma-separated; <n> = syscall.Signal(n), o<n> = a foreign os.Signal value
 //	    (own dynamic type, prints like signal n); "-" = none.  outcomes: one letter per
-//	    registered service in registration order: n nil, e error, p panic; "-" = none.
+//	    registered service in registration order: n nil, e error, p panic, w waits for the
+//	    shutdown deadline and returns nil, W waits for it and returns ctx.Err(); "-" = none.
 //	    Output: "blocked" | "ret status=<s> calls=<i,j,…>".
 //
 //	C18.fine <ros> <steps> <reps>   statement-level scripts, see c18fine.go
@@ -119,6 +120,15 @@ func showInts(xs []int) string {
 	return strings.Join(ss, ",")
 }
 
+// c18SHTimeout: scripts with a service that waits for the shutdown deadline (w, W) get a
+// short ShutdownTimeout, all others a long one that never expires.
+func c18SHTimeout(outs string) time.Duration {
+	if strings.ContainsAny(outs, "wW") {
+		return 30 * time.Millisecond
+	}
+	return time.Minute
+}
+
 func evalC18SH(sigs []c18Sig, outs string) Result {
 	if outs == "-" {
 		outs = ""
@@ -127,7 +137,7 @@ func evalC18SH(sigs []c18Sig, outs string) Result {
 	h := service.NewSignalHandler(&service.SignalHandlerConfig{
 		SignalNotifier:  notifier,
 		Logger:          slogutil.NewDiscardLogger(),
-		ShutdownTimeout: time.Minute,
+		ShutdownTimeout: c18SHTimeout(outs),
 	})
 	if notifier.ch == nil {
 		return Result{Impl: "NO-NOTIFY", Direct: fail("no-notify", "NewSignalHandler did not register with the notifier"), Class: "broken"}
@@ -140,7 +150,7 @@ func evalC18SH(sigs []c18Sig, outs string) Result {
 		o := outs[i]
 		svcs = append(svcs, &fakeservice.Service{
 			OnStart: func(_ context.Context) error { return nil },
-			OnShutdown: func(_ context.Context) error {
+			OnShutdown: func(ctx context.Context) error {
 				if cleanup.Load() {
 					return nil
 				}
@@ -148,6 +158,13 @@ func evalC18SH(sigs []c18Sig, outs string) Result {
 				calls = append(calls, i)
 				mu.Unlock()
 				switch o {
+				case 'w':
+					// uses up the whole shutdown timeout, then gives up without an error
+					<-ctx.Done()
+					return nil
+				case 'W':
+					<-ctx.Done()
+					return ctx.Err()
 				case 'e':
 					return injErr(100 + i)
 				case 'p':
@@ -251,7 +268,7 @@ func evalC18SH(sigs []c18Sig, outs string) Result {
 	// the property's own oracle
 	direct := "ok"
 	n := len(outs)
-	allNil := strings.Count(outs, "n") == n
+	allNil := strings.Count(outs, "n")+strings.Count(outs, "w") == n
 	var want []int
 	for i := n - 1; i >= 0; i-- {
 		want = append(want, i)
@@ -278,6 +295,8 @@ func evalC18SH(sigs []c18Sig, outs string) Result {
 	case !shutdownSent:
 		class = "ignored-only"
 	case n == 0:
+	case strings.ContainsAny(outs, "wW"):
+		class = "shutdown:deadline-expires"
 	case strings.Contains(outs, "p") && strings.Contains(outs, "e"):
 		class = "shutdown:err+panic"
 	case strings.Contains(outs, "p"):
@@ -1038,6 +1057,13 @@ func genC18SH(rng *rand.Rand) string {
 	}
 	if mode == 1 && n > 0 {
 		outs[rng.IntN(n)] = pick(rng, byte('e'), byte('p'))
+	}
+	if n > 0 && rng.IntN(6) == 0 {
+		// one service (seldom two) uses up the shutdown timeout
+		outs[rng.IntN(n)] = pick(rng, byte('w'), byte('w'), byte('W'))
+		if rng.IntN(4) == 0 {
+			outs[rng.IntN(n)] = pick(rng, byte('w'), byte('W'))
+		}
 	}
 	o := string(outs)
 	if o == "" {
